@@ -326,6 +326,27 @@ def install_core_monitors():
     BINDINGS["solve_main"] = instrument_function("solve_main", mk_solve_main, home=dfols.solver)
 
 
+def install_failpoints():
+    """Source-free failpoints: Model.lagrange_gradient raises LinAlgError at its j-th call when CTX.extra['lagrange_fail_at'] == j.
+    (the exception type every caller in controller.py catches and turns into a linear-algebra exit / soft restart)"""
+    if "failpoints" in _INSTALLED:
+        return
+    _INSTALLED.add("failpoints")
+    from dfols.model import Model
+
+    def mk(orig):
+        def lagrange_gradient(self, *a, **kw):
+            c = CTX
+            if c is not None:
+                c.extra["lagrange_calls"] = c.extra.get("lagrange_calls", 0) + 1
+                if c.extra.get("lagrange_fail_at") == c.extra["lagrange_calls"]:
+                    c.extra["lagrange_failed_from"] = sys._getframe(1).f_code.co_name
+                    raise np.linalg.LinAlgError("injected by failpoint at call %d" % c.extra["lagrange_calls"])
+            return orig(self, *a, **kw)
+        return lagrange_gradient
+    BINDINGS["Model.lagrange_gradient"] = instrument_method(Model, "lagrange_gradient", mk)
+
+
 def install_dykstra_logger():
     """Observe every call of dykstra (all bindings): projector calls are counted through per-call wrappers
     (sweeps = calls / p) and the call is handed to ``CTX.dykstra_hook`` (the property decides what to keep)."""
